@@ -54,7 +54,7 @@ pub fn run_line_edge(l: &[i128]) -> Vec<i128> {
 }
 
 use crate::oracle;
-use tiny_skia::{Mask, Paint, Pixmap, Transform};
+use tiny_skia::{IntSize, Mask, Paint, Pixmap, Transform};
 
 /// args: rule aa kind w h wx0 wx1 band_milli ts(6 bits) <builder ops>
 ///   kind 0: Pixmap::fill_path (opaque colour over transparent)   kind 1: Mask::fill_path
@@ -79,6 +79,29 @@ pub fn run_fill_px(l: &[i128]) -> Vec<i128> {
         None => return vec![-8],
     };
     let rule = if evenodd { FillRule::EvenOdd } else { FillRule::Winding };
+    if kind == 3 {
+        // Mask::fill_path draws on top of existing data: with coverage c (what the same call leaves on an empty mask) a
+        // byte v becomes v + (255 - v) * c / 255
+        let mut fresh = Mask::new(w, h).unwrap();
+        fresh.fill_path(&path, rule, aa, t);
+        let old: Vec<u8> = (0..w * h).map(|i| [0u8, 255, 100, 37][(((i % w) / 3 + (i / w) / 2) % 4) as usize]).collect();
+        let mut m = Mask::from_vec(old.clone(), IntSize::from_wh(w, h).unwrap()).unwrap();
+        m.fill_path(&path, rule, aa, t);
+        let (mut checked, mut bad) = (0i128, 0i128);
+        let mut first = [-1i128; 4];
+        for i in 0..(w * h) as usize {
+            let (v, c, got) = (old[i] as f64, fresh.data()[i] as f64, m.data()[i] as f64);
+            let e = v + (255.0 - v) * c / 255.0;
+            checked += 1;
+            if (got - e).abs() > 2.0 {
+                bad += 1;
+                if first[0] < 0 {
+                    first = [(i as u32 % w) as i128, (i as u32 / w) as i128, got as i128, (e * 1000.0) as i128];
+                }
+            }
+        }
+        return vec![checked, 0, bad, first[0], first[1], first[2], first[3], 0];
+    }
     // what was drawn
     let alpha: Vec<u8> = if kind == 0 || kind == 2 {
         let mut pm = Pixmap::new(w, h).unwrap();
